@@ -289,9 +289,11 @@ def mprocess_element_choi_from_var(
     if 0 <= x and x < m - 1:
         vec = var[x * (d ** 4) : (x + 1) * (d ** 4)]
     elif x == m - 1:
-        vectors = [np.zeros(d ** 2)]
-        for y in range(m - 2):
-            vectors.append(var[y * (d ** 4) : y * (d ** 4) + d ** 2])
+        v0 = np.zeros(d ** 2)
+        v0[0] = 1.0
+        vectors = [v0]
+        for y in range(m - 1):
+            vectors.append(-var[y * (d ** 4) : y * (d ** 4) + d ** 2])
         v = cp.sum(vectors)
         w = var[(m - 1) * (d ** 4) : m * (d ** 4)]
         vec = cp.hstack([v, w])
